@@ -698,6 +698,22 @@ func run(t *testing.T, c Case) engine.Verdict {
 		}
 		labels = append(labels, "batch-with-repeated-names")
 	}
+	// A few of the names as notifications: the assigner is shown each of them
+	// with its inbound request (the recorder flags a missing or foreign one); the
+	// call behind them returns only after they have been handled.
+	sentNotes := 0
+	for i, name := range c.Names {
+		if name == "" || sentNotes == 3 {
+			continue
+		}
+		sentNotes++
+		if err := loc.Client.Notify(context.Background(), name, map[string]int{"n": i}); err != nil {
+			return engine.Failf("C17/raw", "Notify(%q): %v", name, err)
+		}
+	}
+	if sentNotes > 0 {
+		loc.Client.Call(context.Background(), "no such method, just to wait", nil)
+	}
 	// The same names once more as raw JSON the way an ASCII-only encoder writes
 	// them (\uXXXX for everything outside printable ASCII, surrogate pairs for
 	// astral runes, the solidus escaped, one letter escaped): it is the decoded
@@ -815,7 +831,7 @@ func genKey(t *rapid.T) string {
 	n := rapid.IntRange(0, 3).Draw(t, "klen")
 	var sb strings.Builder
 	for i := 0; i < n; i++ {
-		sb.WriteString(rapid.SampledFrom([]string{"a", "b", "rpc", ".", "R", "é", "_", "serverInfo", "😀", " "}).Draw(t, "kc"))
+		sb.WriteString(rapid.SampledFrom([]string{"a", "b", "rpc", ".", "R", "é", "_", "serverInfo", "😀", " ", "a", "b", ".", "\\", "\\u0042", "\\n"}).Draw(t, "kc"))
 	}
 	return sb.String()
 }
